@@ -193,6 +193,16 @@ def check_spec(case):
                     diff = m.compare(*files, solution=sol)
                     if diff:
                         fails.append(('compare|nonempty', 'compare() reports %s' % (diff[:3],)))
+                    if len(files) > 1:
+                        # a model of several books compared with its files one at a time, and in the other order
+                        for fp in files:
+                            diff = m.compare(fp, solution=sol)
+                            if diff:
+                                fails.append(('compare|nonempty-single-file', 'compare(%s) alone reports %s' % (os.path.basename(fp), diff[:2])))
+                                break
+                        diff = m.compare(*files[::-1], solution=sol)
+                        if diff:
+                            fails.append(('compare|nonempty-reversed-files', 'compare() with the files in reverse order reports %s' % (diff[:2],)))
                     diff = m.compare(*files)
                     if diff:
                         fails.append(('compare|nonempty-default-solution', 'compare() without solution= reports %s' % (diff[:3],)))
